@@ -91,9 +91,10 @@ def range_bounds(r):
 class Norm:
     eng = None   # set by an.analyse: engine used to resolve generic associated consts
 
-    def __init__(self, env=None):
+    def __init__(self, env=None, envs=None):
         self.cache = {}
         self.env = env or {}
+        self.envs = envs or {}
         self.unknown_calls = set()
 
     def __call__(self, t):
@@ -130,7 +131,7 @@ class Norm:
         if k == "ldowncast":
             return ("downcast", n(t[1]), t[2], t[3])
         if k == "local":
-            v = self.env.get(t[1])
+            v = self.env.get(t[1]) if len(t) == 2 else self.envs.get(t[2], {}).get(t[1])
             if v is not None and not (isinstance(v, tuple) and v[0] in ("post", "loopvar", "uninit", "local")):
                 return n(v)
             return t
